@@ -49,6 +49,9 @@ type Handler struct {
 	OnRTCP       func(ss *gortsplib.ServerSession, m *description.Media, pkt rtcp.Packet)
 	StatusFor    func(method base.Method, path string) base.StatusCode // 0 = default
 	OnSetupExtra func(ctx *gortsplib.ServerHandlerOnSetupCtx)
+	// Hook, when set, runs inside every handler callback right after it was recorded (on the
+	// library goroutine that invoked the callback).
+	Hook func(cb CB)
 	// NoForward: the handler does not write publishers' packets into the
 	// stream itself (OnRTP does it).
 	NoForward bool
@@ -72,6 +75,9 @@ func (h *Handler) add(cb CB) {
 	h.mu.Lock()
 	h.CBs = append(h.CBs, cb)
 	h.mu.Unlock()
+	if h.Hook != nil {
+		h.Hook(cb)
+	}
 }
 
 // Callbacks returns a copy of the recorded callbacks.
